@@ -315,7 +315,8 @@ def scene_calls(c):
     rt = d(st.sampled_from(["int", "unsigned", "long", "unsigned long", "double", "float", "short", "unsigned char", "_Bool", "void"]))
     params = ", ".join("%s p%d" % (t, i) for i, t in enumerate(ptypes))
     body = [chk(t, "p%d" % i) for i, t in enumerate(ptypes)]
-    ret = "" if rt == "void" else "return (%s)%s;" % (rt, "p0" if ptypes[0] != "_Bool" else "1")
+    # (a negative floating value converted to an unsigned type is undefined: go through long)
+    ret = "" if rt == "void" else "return (%s)%s;" % (rt, ("(long)p0" if ptypes[0] in ("float", "double") and rt.startswith("unsigned") else "p0") if ptypes[0] != "_Bool" else "1")
     c.funcs.append("static %s %s_callee(%s) {\n\t%s\n\t%s\n}" % (rt, f, params, "\n\t".join(body), ret))
     args = ", ".join(small(c.draw, t) for t in ptypes)
     caller = []
@@ -475,9 +476,12 @@ def scene_pointers(c):
              "chk_i64((long)%s); chk_i64(p - a);" % val("*--p"),
              "chk_i64((char *)(p + 1) - (char *)p);",
              "{ void *v = q; %s *r = v; chk_i64(r == q); chk_i64(!v); chk_i64(v && 1); }" % et,
+             # pointer plus a run-time index minus a constant, in the positions where the compiler tries to fold (equality operands,
+             # the first operand of ?:)
+             "{ int k1 = %d, k2 = %d; chk_i64(q == a + k1 - 1); chk_i64(a + k2 - 1 != q); chk_i64((a + k1 - 1) ? 1 : 2); chk_i64(&a[k2] - 2 == a + k2 - 2); chk_i64(q == &p[k1] - 1); chk_i64((p + k1 - 1 == a + k1 - 1) ? k1 : k2); }" % (i2 + 1, max(2, min(i1 + 2, ln))),
              # equality with the operands in every order: null pointer constant first, void pointer first, const-qualified side
              "{ void *v = q; const void *cv = p; %s *z0 = 0; chk_i64(0 == q); chk_i64(0 != z0); chk_i64((void *)0 == z0); chk_i64((void *)0 != q); chk_i64(v == q); chk_i64(q == v);"
-             " chk_i64(v != p); chk_i64(cv == p); chk_i64(p != cv); chk_i64(cv == v); chk_i64(nullptr == z0); chk_i64(q != nullptr); chk_i64(0 == v); chk_i64(z0 == (void *)0); }" % et,
+             " chk_i64(v != p); chk_i64(cv == p); chk_i64(p != cv); chk_i64(cv == v); chk_i64(0 == v); chk_i64(z0 == (void *)0); }" % et,
              "{ unsigned char *b = (unsigned char *)&anchor[1]; chk_u64(b[0] + 256u * b[1]); }"]
     if et in ("int", "long", "short"):
         body += ["*p += %d; p[%d] -= 2; (*p)++; --*p; chk_i64(*p); chk_i64(a[%d]);" % (d(st.integers(-5, 5)), ln - 1, ln - 1),
@@ -494,7 +498,7 @@ def scene_statics(c):
     tl = "_Thread_local " if d(st.booleans()) else ""
     c.globals.append("%sstatic %s %s_g = %s;" % (tl, t, f, small(c.draw, t)))
     body = ["static %s cnt = %s;" % (t, small(c.draw, t)), "cnt += 1; %s_g += cnt;" % f, chk(t, "cnt"), chk(t, "%s_g" % f),
-            "{ static const char *names[] = { \"zero\", \"one\", \"two\" }; chk_str(names[(unsigned)cnt %% 3u]); }" if t in ("int", "unsigned long", "short") else "",
+            "{ static const char *names[] = { \"zero\", \"one\", \"two\" }; chk_str(names[(unsigned)cnt % 3u]); }" if t in ("int", "unsigned long", "short") else "",
             "{ int *cl = (int[]){ %d, %d, %d }; cl[1] += 1; chk_i64(cl[0] + cl[1] * 10 + cl[2] * 100); }" % tuple(d(st.integers(0, 9)) for _ in range(3)),
             "chk_str(__func__); chk_i64(\"abcdef\"[%d]); chk_u64(sizeof \"abc\");" % d(st.integers(0, 6))]
     c.funcs.append("static void %s(void) {\n\t%s\n}" % (f, "\n\t".join(x for x in body if x)))
@@ -513,10 +517,10 @@ def scene_arith_loop(c):
     bits = {"unsigned char": 8, "unsigned short": 16, "unsigned": 32, "unsigned long": 64, "unsigned long long": 64, "int": 32, "long": 64}[t]
     body = ["%s x = (%s)seed, y = (%s)(seed2 | 1);" % (t, t, t), "for (int i = 0; i < %d; i++) {" % d(st.integers(1, 8))]
     if t.startswith("unsigned"):
-        ops = ["x = x * 3u + y;", "x ^= x >> (i & %d);" % (bits - 1 if bits < 32 else 31), "x = x / y + x %% y;", "y = (%s)(y + 2u);" % t,
+        ops = ["x = x * 3u + y;", "x ^= x >> (i & %d);" % (bits - 1 if bits < 32 else 31), "x = x / y + x % y;", "y = (%s)(y + 2u);" % t,
                "x <<= (y & 7u);", "x = ~x & (%s)-1;" % t, "x -= y;", "x = (x > y) ? x - y : y - x;", "x |= (%s)1 << (i %% %d);" % (t, min(bits, 31))]
     else:
-        ops = ["x = x %% 1000 + y %% 100;", "x = (x / (y %% 10 + 1)) * 2;", "x = -x;", "x = x >> 1;", "x = (x & 0xff) << (i & 3);", "y = y %% 50 + 1;", "x = x < y ? y - 1 : x - 1;"]
+        ops = ["x = x % 1000 + y % 100;", "x = (x / (y % 10 + 1)) * 2;", "x = -x;", "x = x >> 1;", "x = (x & 0xff) << (i & 3);", "y = y % 50 + 1;", "x = x < y ? y - 1 : x - 1;"]
     for _ in range(d(st.integers(2, 6))):
         body.append("\t" + d(st.sampled_from(ops)))
     body += ["\t" + chk(t, "x"), "}", chk(t, "y")]
